@@ -979,6 +979,14 @@ func (e *Eng) finish(fr *Frame) {
 		e.oblige(st, "chan_balance", "", e.allProps(), app("bvsle", sends, app("bvadd", capT, recv)), lc.in, "sends on the channel made here do not exceed its capacity plus the receives performed before returning")
 	}
 	e.cover(st, "exit", e.coverProps(), nil, "some return is reachable under the assumed callee contracts and invariants")
+	if !e.collect {
+		for _, ss := range e.fc.Sites {
+			if !e.siteHit[ss] {
+				o := e.addObl("contract", fmt.Sprintf("callsite.%s#%d", ss.Callee, ss.N), propsOf(ss.Clause, e), "", nil, "the call this clause is attached to was not found (or is unreachable)", false)
+				o.Unsupported = "callsite clause matches no call"
+			}
+		}
+	}
 }
 
 
